@@ -2592,6 +2592,10 @@ class Gen:
         c['U'] = list(c['F'])
         if K == 1:
             c['FJ'] = list(c['F'])
+        if ext and c['pl'] is None and (self.nroles // 2) % 2 == 0:
+            # every other external-interference case carries a path loss whatever the draw (the branch
+            # 'one object as path loss and external path loss' must not depend on the seed)
+            c['pl'] = [[[1.0, 0.25, 0.5][(r_ + t_) % 3] for t_ in range(K)] for r_ in range(K)]
         if c['pl'] is not None and ext:
             c['ple'] = [list(r) for r in c['pl']]
         c['P'] = None
